@@ -472,7 +472,12 @@ func wmConc(c core.Case, res *core.Result) {
 func wmWait(c core.Case, res *core.Result) {
 	r := rand.New(rand.NewSource(c.Seed))
 	w := watermark.New()
-	defer w.Stop()
+	stopped := false
+	defer func() {
+		if !stopped {
+			w.Stop()
+		}
+	}()
 	im := caseIdxMap(c)
 	type waiter struct {
 		t        uint64
@@ -634,6 +639,55 @@ func wmWait(c core.Case, res *core.Result) {
 	for _, wt := range ws {
 		wt.cancel()
 	}
+	// Stop with waiters parked on indices that were never reached: nil means "DoneUntil >= t", so a
+	// stopped watermark may only answer them through their contexts. Every other waiter goroutine
+	// has to be gone first (Stop closes the mark channel), and the three must really be parked.
+	if res.Verdict == "" {
+		allGone := true
+		for _, wt := range ws {
+			select {
+			case <-wt.exited:
+			case <-time.After(c13Patience()):
+				allGone = false
+			}
+		}
+		if allGone {
+			var sw []*waiter
+			for i := 0; i < 3; i++ {
+				sw = append(sw, start(top+200+uint64(i), true))
+			}
+			parked := false
+			for deadline := time.Now().Add(5 * time.Second); time.Now().Before(deadline); time.Sleep(200 * time.Microsecond) {
+				if wmParkedWaiters() >= 3 {
+					parked = true
+					break
+				}
+			}
+			if parked {
+				w.Stop()
+				stopped = true
+				time.Sleep(2 * time.Millisecond)
+				for _, wt := range sw {
+					select {
+					case err := <-wt.done:
+						res.Violate("C13", "C13/wait/returned-unreached-at-stop", "WaitForMark(%d) returned %v when the watermark was stopped although DoneUntil()=%d never reached it", wt.t, err, im.inv(w.DoneUntil()))
+						continue
+					default:
+					}
+					wt.cancel()
+					select {
+					case err := <-wt.done:
+						if !errors.Is(err, context.Canceled) {
+							res.Violate("C13", "C13/wait/wrong-context-error", "WaitForMark(%d) on a stopped watermark returned %v after its context was cancelled, want context.Canceled", wt.t, err)
+						}
+					case <-time.After(c13Patience()):
+						res.Violate("C13", "C13/wait/ignores-context", "WaitForMark(%d) on a stopped watermark did not return after its context was cancelled\n%s", wt.t, goroutineDump())
+					}
+				}
+				res.AddObs("wait_scenarios_stopped_with_parked_waiters", 1)
+			}
+		}
+	}
 	res.AddObs("wait_waiters_returned", int64(reached))
 	res.AddObs("wait_waiters_cancelled", int64(cancelled+1))
 	res.NonTrivial = reached >= 2
@@ -644,6 +698,20 @@ func wmWait(c core.Case, res *core.Result) {
 	if c.Int("sample", 0) == 1 {
 		res.Sample = map[string]any{"kind": "wait", "indices": top, "waiters": len(ws), "finish_order": order}
 	}
+}
+
+// wmParkedWaiters counts the goroutines of this process that sit in the select of WaitForMark (their
+// mark has been handed over: they are past the channel send).
+func wmParkedWaiters() int {
+	buf := make([]byte, 1<<20)
+	n := runtime.Stack(buf, true)
+	cnt := 0
+	for _, g := range strings.Split(string(buf[:n]), "\n\n") {
+		if strings.Contains(g, "[select") && strings.Contains(g, "(*WaterMark).WaitForMark") {
+			cnt++
+		}
+	}
+	return cnt
 }
 
 // wmFlood: a tight loop of Begin(i); Done(i) far beyond the channel buffer, no observation in
